@@ -237,4 +237,39 @@ def opFlip (args : List String) (impl : String) : Verdict :=
     | _, _ => bad "flip"
   | _ => bad "flip"
 
+/-- `flipx seed size bs`: flip of memory outboards with ARBITRARY contents (and an arbitrary root);
+spec: the result is the same 64-byte records re-ordered from one traversal order to the other
+(computed from the recursive traversals, independent of the offset functions), root unchanged,
+and flipping twice gives the original back -/
+def opFlipX (args : List String) (impl : String) : Verdict :=
+  match args.mapM (·.toNat?) with
+  | some [seed, size, bs] =>
+    let tree : Tree := ⟨size, bs⟩
+    let raw := randBytes seed (tree.outboardSize + 32)
+    let root := raw.take 32
+    let data := raw.drop 32
+    let pre : Store HB := ⟨.preMem, root, tree, data⟩
+    let post : Store HB := ⟨.postMem, root, tree, data⟩
+    let str (r : Res IoErr (Store HB)) : String :=
+      match r with
+      | .ok s => s!"{kindStr s.kind}:{dig s.root}:{dig s.data}"
+      | .err e => ioErrStr e
+      | .panic => "panic"
+    let bind (r : Res IoErr (Store HB)) (f : Store HB → Res IoErr (Store HB)) := match r with | .ok s => f s | x => x
+    let a := flip hf pre
+    let a2 := bind a (flip hf)
+    let b' := flip hf post
+    let b2 := bind b' (flip hf)
+    let m := s!"{str a} {str a2} {str b'} {str b2}"
+    -- spec
+    let P := Spec.persistedPre size bs
+    let Q := Spec.persistedPost size bs
+    let rec64 (l : List UInt8) (i : Nat) : List UInt8 := (l.drop (i * 64)).take 64
+    let toPost := Q.flatMap fun x => match Spec.indexOfNode P x with | some i => rec64 data i | none => []
+    let toPre := P.flatMap fun x => match Spec.indexOfNode Q x with | some i => rec64 data i | none => []
+    let spec := s!"postMem:{dig root}:{dig toPost} preMem:{dig root}:{dig data} preMem:{dig root}:{dig toPre} postMem:{dig root}:{dig data}"
+    { model := m, specFail := if impl == spec then none else some s!"flip of arbitrary contents is not the re-ordering of its records ({spec})",
+      nontrivial := tree.blocks > 2 }
+  | _ => bad "flipx"
+
 end Bao.Ops
